@@ -239,7 +239,7 @@ Section ParserInst.
         match goal with |- snd (let (_, _) := ?a in _) = snd (let (_, _) := ?b in _) => change b with a; destruct a end.
         reflexivity.
       + (* OParseCtx *)
-        pose proof (H FDepth eq_refl) as Hd; pose proof (H FDialect eq_refl) as Hl.
+        pose proof (H FDepth eq_refl) as Hd; pose proof (H FStrict eq_refl) as Hs; pose proof (H FDialect eq_refl) as Hl.
         destruct s1, s2; cbn in *; subst.
         split; [|intros []; discriminate].
         unfold psem, drop_positions, load_tokens, set_positions, set_ctx, view_of; cbn.
@@ -356,7 +356,7 @@ Lemma tfeq_all_eq : forall a b, (forall f, tfeq f a b) -> a = b.
 Proof.
   intros [] [] H.
   pose proof (H TInput); pose proof (H TPos); pose proof (H TLineStart); pose proof (H TLineStarts); pose proof (H TLine);
-  pose proof (H TKeywords); pose proof (H TDialect); pose proof (H TLogger); pose proof (H TComments); pose proof (H TConfigured).
+  pose proof (H TKeywords); pose proof (H TDialect); pose proof (H TLogger); pose proof (H TConfigured); pose proof (H TComments).
   cbn in *. congruence.
 Qed.
 
